@@ -138,10 +138,30 @@ class StmtMixin(object):
             return new
         if old is None:
             old = UNDEF
+        outer = list(self.path_conds[:birth]) + list(self.sticky_conds)
         res = new
-        for c, v in reversed(conds):
-            res = make_phi(c, res, old) if v else make_phi(c, old, res)
+        for i in range(len(conds) - 1, -1, -1):
+            c, v = conds[i]
+            # the previous value on the path that leaves this branch at level i
+            other = self.restrict(old, outer + conds[:i] + [(c, not v)])
+            res = make_phi(c, res, other) if v else make_phi(c, other, res)
         return res
+
+    def restrict(self, v, condlist):
+        while isinstance(v, Phi):
+            hit = False
+            for c, val in condlist:
+                if c.key() == v.cond.key():
+                    v = v.a if val else v.b
+                    hit = True
+                    break
+                if neg_cond(c).key() == v.cond.key():
+                    v = v.b if val else v.a
+                    hit = True
+                    break
+            if not hit:
+                break
+        return v
 
     def resolve(self, v):
         """simplify Phi by the current path conditions"""
